@@ -76,7 +76,7 @@ type obSummary struct {
 }
 
 func explicitKind(kind string) bool {
-	return kind == "post" || kind == "cs" || kind == "onpanic" || strings.HasPrefix(kind, "loop") || kind == "go" || kind == "lemma" || kind == "at" || kind == "atomic" || kind == "immutable" || kind == "lockset" || kind == "option" || kind == "chaninv"
+	return kind == "post" || kind == "cs" || kind == "onpanic" || strings.HasPrefix(kind, "loop") || kind == "go" || kind == "lemma" || kind == "at" || kind == "atomic" || kind == "immutable" || kind == "lockset" || kind == "option" || kind == "chaninv" || kind == "created"
 }
 
 func cmdCheck(args []string) int {
@@ -129,11 +129,13 @@ func cmdCheck(args []string) int {
 			if fs.Trusted || !strings.HasPrefix(fs.Pos, pkgFile) {
 				continue
 			}
-			if specServes(fs, P) {
+			// C03 (race and deadlock freedom) is served by every function under
+			// contract: each generates lockset, lock-order and guarded-access obligations
+			if specServes(fs, P) || P == "C03" {
 				sels = append(sels, funcSel{d, n})
 			}
 		}
-		if _, err := os.Stat(pkgFile); err == nil && scansServe(db, P) {
+		if _, err := os.Stat(pkgFile); err == nil && (scansServe(db, P) || P == "C03") {
 			sels = append(sels, funcSel{d, "package"})
 		}
 	}
